@@ -349,10 +349,16 @@ def _depends_on(prog, m, node):
     while st is not None and not isinstance(st, ast.stmt):
         st = getattr(st, '_parent', None)
     scope = [st] if st is not None else []
+    if m.name not in MUTATORS and m.name != 'copy_from_statechart':
+        scope = [m.node]      # a memoising query: everything it reads feeds the stored value
     for sc in scope:
         for n in ast.walk(sc):
             if isinstance(n, ast.Attribute) and isinstance(n.ctx, ast.Load):
-                for c in prog.expr_types(n.value, m):
+                tys = prog.expr_types(n.value, m)
+                if not tys and n.attr in ('source', 'target', 'name'):
+                    # receiver of unknown type (an element taken from a local container): the element classes that own such an accessor
+                    tys = [k for k in ELEMENT_CLASSES if prog.has_cls(k) and prog.lookup(prog.cls(k), n.attr) is not None]
+                for c in tys:
                     out.add(prog.canon_field(c, n.attr))
                     if prog.has_cls(c):
                         for cc in [prog.cls(c)] + prog.subclasses(prog.cls(c)):
@@ -368,8 +374,60 @@ def _depends_on(prog, m, node):
     return out
 
 
+def _numeric_value(node, fld=None):
+    """The value stored by a cache write is a number (depth-like): arithmetic over numbers / len(..) / other cache entries."""
+    v = node.value if isinstance(node, (ast.Assign, ast.AugAssign)) else None
+    if v is None:
+        return False
+
+    def num(e, d=0):
+        e = strip_cast(e)
+        if isinstance(e, ast.Constant):
+            return isinstance(e.value, (int, float)) and not isinstance(e.value, bool)
+        if isinstance(e, ast.BinOp) and isinstance(e.op, (ast.Add, ast.Sub)):
+            return num(e.left, d + 1) or num(e.right, d + 1)
+        if isinstance(e, ast.IfExp):
+            return num(e.body, d + 1) and num(e.orelse, d + 1)
+        if isinstance(e, ast.Call) and isinstance(e.func, ast.Name) and e.func.id in ('len', 'int', 'max', 'min'):
+            return True
+        # another entry of the same field (re-keying, entry of the parent): numeric exactly when the field is
+        if fld is not None and ('self.' + fld) in q.unparse(e) and isinstance(e, (ast.Subscript, ast.Call)):
+            return True
+        return False
+    return num(v)
+
+
+def _write_scopes(prog, m, fld, query_writers):
+    """How far the writes of derived field fld reachable from edit m reach: WHOLE (rebinding, clear(), a loop over every entry),
+    LOOP:desc / LOOP:anc (entries of the descendants / ancestors of a state), KEYED (single entries). Fills made by the memoising
+    queries themselves are not invalidations and are left out."""
+    out = []
+    for f, kind, node in prog.transitive_writes([m]).get(('Statechart', fld), []):
+        if f in query_writers:
+            continue
+        if kind in ('assign', 'mut:clear'):
+            out.append(('WHOLE', f, node))
+            continue
+        lp = q.enclosing(node, ast.For)
+        sc = 'KEYED'
+        while lp is not None and prog.func_of(lp) is f:
+            texts = [q.unparse(o) for o in [lp.iter] + q.local_origin(f.node, lp.iter)]
+            if any('descendants_for(' in t for t in texts):
+                sc = 'LOOP:desc'
+            elif any('ancestors_for(' in t for t in texts):
+                sc = 'LOOP:anc'
+            elif any(('self._states' in t or 'self.states' in t or 'self.' + fld in t) for t in texts):
+                sc = 'WHOLE'
+            if sc != 'KEYED':
+                break
+            lp = q.enclosing(lp, ast.For)
+        out.append((sc, f, node))
+    return out
+
+
 def cache_findings(prog):
-    """[(field, mutator FuncInfo)] : edits that delete or rebind entries a derived field depends on, yet neither clear nor rewrite it."""
+    """[(field, mutator FuncInfo)] : edits that delete or rebind entries a derived field depends on, yet neither clear nor rewrite it
+    (or refresh single entries only where the entries of other states are computed from the edited one)."""
     out = []
     caches = derived_caches(prog)
     for fld, writers in caches.items():
@@ -377,20 +435,52 @@ def cache_findings(prog):
         for m_, n_ in writers:
             deps |= _depends_on(prog, m_, n_)
         names = {f for (c, f) in deps}
+        query_writers = {m_ for m_, n_ in writers if m_.name not in MUTATORS and m_.name != 'copy_from_statechart'}
+        # an index kept up to date by the edits themselves (no memoising query): entries computed from other entries of the same field
+        self_ref = fld in names and not query_writers
         required = set()
-        if names & {'_states', '_parent', '_children'}:
-            required |= {'remove_state', 'rename_state', 'move_state'}      # edits that delete or rebind existing entries
+        if names & {'_states', '_parent', '_children'} or self_ref:
+            required |= {'remove_state', 'rename_state'}      # edits that delete or re-key existing entries
+        if names & {'_parent', '_children'} or self_ref:
+            required |= {'move_state'}                        # .. or rebind parent links
         if names & {'_transitions'}:
             required |= {'remove_transition', 'remove_state'}
         if names & {'_source', '_target'}:
             required |= {'rotate_transition', 'rename_state'}
         if names & {'_name'}:
             required |= {'rename_state'}
+        up = bool(names & {'_parent'}) or self_ref           # an entry is computed from the entries / links of the ancestors of its state
+        down = bool(names & {'_children'})                  # .. of the descendants of its state
+        numeric = all(_numeric_value(n_, fld) for m_, n_ in writers if isinstance(n_, (ast.Assign, ast.AugAssign)))
         for name in sorted(required):
             m = prog.fn('Statechart.' + name)
-            w = prog.transitive_writes([m])
-            if not w.get(('Statechart', fld)):
-                out.append((fld, m))
+            scopes = _write_scopes(prog, m, fld, query_writers)
+            if not scopes:
+                out.append((fld, m, 'not invalidated'))
+                continue
+            kinds = {sc for sc, f_, n_ in scopes}
+            if 'WHOLE' in kinds or not (up or down):
+                continue
+            why = None
+            if name == 'move_state':
+                # moving x changes what is derived for the descendants of x (upward data) and for its old and new ancestors (downward data)
+                if up and 'LOOP:desc' not in kinds:
+                    why = 'only single entries are refreshed: the entries of the descendants of the moved state are computed from it and stay stale'
+                if down:
+                    par_w = [n_ for c_, f_, k_, n_ in prog.direct_writes(m) if f_ == '_parent']
+                    anc = [n_ for sc, f_, n_ in scopes if sc == 'LOOP:anc' and f_ is m]
+                    before = any(all(q.strictly_before(m.node, a_, w_) for w_ in par_w) for a_ in anc)
+                    after = any(all(q.strictly_before(m.node, w_, a_) for w_ in par_w) for a_ in anc)
+                    if not (before and after):
+                        why = 'the entries of the old and of the new ancestors of the moved state must both be dropped (found: %s)' % sorted(kinds)
+            elif name == 'rename_state' and not numeric:
+                if not kinds & {'LOOP:desc', 'LOOP:anc'}:
+                    why = 're-keying the entry of the renamed state leaves its old name inside the entries of other states'
+            elif name == 'remove_state' and down:
+                if 'LOOP:anc' not in kinds:
+                    why = 'the entries of the ancestors of the removed state still list it'
+            if why:
+                out.append((fld, m, why))
     return caches, out
 
 
@@ -406,11 +496,14 @@ def rules_caches(run, P='C16', rid='.7'):
                           'by-source index makes the exporter file a rotated transition under its old source)')
     prog = run.prog
     caches, bad = cache_findings(prog)
-    for fld, m in bad:
-        run.fail(r, m.short, 'cache %s not invalidated' % fld, 'the memoised field %s (written by %s) survives this edit: queries answer from stale data afterwards'
-                 % (fld, sorted({x[0].short for x in caches[fld]})), m.node)
+    for fld, m, why in bad:
+        if why == 'not invalidated':
+            run.fail(r, m.short, 'cache %s not invalidated' % fld, 'the memoised field %s (written by %s) survives this edit: queries answer from stale data afterwards'
+                     % (fld, sorted({x[0].short for x in caches[fld]})), m.node)
+        else:
+            run.fail(r, m.short, 'cache %s only partly invalidated' % fld, 'derived field %s: %s' % (fld, why), m.node)
     for fld in caches:
-        if not any(f == fld for f, m in bad):
+        if not any(f == fld for f, m, w_ in bad):
             run.ok(r, 'Statechart', 'cache %s invalidated by the edits that delete or rebind entries it depends on' % fld, None)
     run.ok(r, 'Statechart', '%d derived cache field(s) found on the current tree' % len(caches), None)
     # positive fixture: the detector must fire on a memoised depth_for without invalidation (in-memory overlay of the current tree)
